@@ -18,6 +18,7 @@
 import socket
 import struct
 
+import dns.exception
 import dns.immutable
 import dns.ipv4
 import dns.rdata
@@ -77,6 +78,8 @@ class WKS(dns.rdata.Rdata):
                 else:
                     protocol_text = "tcp"
                 serv = socket.getservbyname(value, protocol_text)
+            if serv > 65535:
+                raise dns.exception.SyntaxError("port out of range")
             i = serv // 8
             l = len(bitmap)
             if l < i + 1:
